@@ -126,3 +126,49 @@ pub fn parse_single_expr(src: &str) -> Result<SpannedExpr, String> {
 pub fn deco(d: &str) -> &'static str {
     match d { "" => "", "s" => " ", "ss" => "  ", "n" => "\n", "c" => " // c\n", "sn" => " \n ", _ => panic!("deco {d}") }
 }
+
+// ---------------------------------------------------------------- rich trees (spec/SyntaxRich.tla)
+use blots_core::ast::{RecordEntry, RecordKey};
+use blots_core::values::LambdaArg;
+
+pub fn rich_of(e: &SpannedExpr) -> J {
+    match &e.node {
+        Expr::Number(v) => {
+            if v.fract() == 0.0 && v.abs() < 2e9 { json!({"k":"num","v": *v as i64}) } else { json!({"k":"num","bits": crate::mv::hex(*v)}) }
+        }
+        Expr::String(s) => json!({"k":"str","s":s,"dq": s.contains('"')}),
+        Expr::Bool(b) => json!({"k":"bool","b":b}),
+        Expr::Null => json!({"k":"null"}),
+        Expr::Identifier(n) => json!({"k":"id","n":n}),
+        Expr::BuiltIn(b) => json!({"k":"id","n":b.name()}),
+        Expr::InputReference(n) => json!({"k":"inref","n":n}),
+        Expr::List(xs) => json!({"k":"list","xs": xs.iter().map(|c| rich_of(&c.node)).collect::<Vec<_>>()}),
+        Expr::Record(es) => json!({"k":"rec","es": es.iter().map(|c| rich_entry(&c.node)).collect::<Vec<_>>()}),
+        Expr::Lambda { args, body } => json!({"k":"lam","ps": args.iter().map(|a| match a {
+            LambdaArg::Required(n) => json!({"n":n,"m":"req"}),
+            LambdaArg::Optional(n) => json!({"n":n,"m":"opt"}),
+            LambdaArg::Rest(n) => json!({"n":n,"m":"rest"}),
+        }).collect::<Vec<_>>(), "b": rich_of(body)}),
+        Expr::Conditional { condition, then_expr, else_expr } => json!({"k":"if","c":rich_of(condition),"t":rich_of(then_expr),"e":rich_of(else_expr)}),
+        Expr::DoBlock { statements, return_expr } => json!({"k":"do","ss": statements.iter().map(|c| rich_of(&c.node)).collect::<Vec<_>>(),"r": rich_of(&return_expr.node)}),
+        Expr::Assignment { ident, value } => json!({"k":"asg","n":ident,"e":rich_of(value)}),
+        Expr::Output { expr } => json!({"k":"output","e":rich_of(expr)}),
+        Expr::Call { func, args } => json!({"k":"call","f":rich_of(func),"args": args.iter().map(rich_of).collect::<Vec<_>>()}),
+        Expr::Access { expr, index } => json!({"k":"idx","e":rich_of(expr),"i":rich_of(index)}),
+        Expr::DotAccess { expr, field } => json!({"k":"dot","e":rich_of(expr),"f":field}),
+        Expr::BinaryOp { op, left, right } => json!({"k":"bin","o":binop_name(op),"l":rich_of(left),"r":rich_of(right)}),
+        Expr::UnaryOp { op, expr } => json!({"k":"un","o": match op { UnaryOp::Negate => "neg", UnaryOp::Not => "not", UnaryOp::Invert => "invert" },"e":rich_of(expr)}),
+        Expr::PostfixOp { op: PostfixOp::Factorial, expr } => json!({"k":"fact","e":rich_of(expr)}),
+        Expr::Spread(e) => json!({"k":"spread","e":rich_of(e)}),
+    }
+}
+
+fn rich_entry(e: &RecordEntry) -> J {
+    match &e.key {
+        RecordKey::Static(k) => json!({"ek":"static","key":k,"v":rich_of(&e.value)}),
+        RecordKey::Dynamic(k) => json!({"ek":"dyn","ke":rich_of(k),"v":rich_of(&e.value)}),
+        RecordKey::Shorthand(n) => json!({"ek":"short","n":n}),
+        // the parser stores `...e` as Spread(e) under the key
+        RecordKey::Spread(s) => match &s.node { Expr::Spread(inner) => json!({"ek":"spread","e":rich_of(inner)}), _ => json!({"ek":"spread","e":rich_of(s)}) },
+    }
+}
